@@ -20,7 +20,8 @@ Paths == UNION {[1..n -> Kinds] : n \in 1..MaxDepth}
 \* spelling choices of the defs: the innermost def and the def that directly encloses it
 InnerNames == {"__init__", "g"}
 OuterNames == {"m", "__init__"}
-Decos == {"", "classmethod"}
+\* (a static method takes no self: it is a member of the class all the same, whatever encloses the class)
+Decos == {"", "classmethod", "staticmethod"}
 
 RECURSIVE Tabs(_)
 Tabs(n) == IF n = 0 THEN "" ELSE "\t" \o Tabs(n - 1)
@@ -29,7 +30,8 @@ Tabs(n) == IF n = 0 THEN "" ELSE "\t" \o Tabs(n - 1)
 KindOf(p, i, name, deco) ==
   IF p[i] = "C" THEN "Class"
   ELSE IF i = 1 THEN "Function"
-  ELSE IF p[i - 1] = "C" THEN (IF deco = "classmethod" THEN "ClassMethod" ELSE IF name = "__init__" THEN "Constructor" ELSE "Method")
+  ELSE IF p[i - 1] = "C" THEN (IF deco = "classmethod" THEN "ClassMethod" ELSE IF deco = "staticmethod" THEN "Function"
+                               ELSE IF name = "__init__" THEN "Constructor" ELSE "Method")
   ELSE "Closure"
 
 \* the name of the definition at position i: the innermost def takes `inner`, the def right above it `outer`
@@ -44,7 +46,7 @@ DecoAt(p, i, deco) == IF i = Len(p) /\ p[i] = "F" /\ i > 1 /\ p[i - 1] = "C" THE
 HeadLine(p, i, name, deco) ==
   IF p[i] = "C" THEN "class " \o name \o ":"
   ELSE LET inclass == i > 1 /\ p[i - 1] = "C"
-           params == IF inclass THEN (IF deco = "classmethod" THEN "cls" ELSE "self") ELSE "a" \o ToString(i) \o ": int"
+           params == IF inclass /\ deco # "staticmethod" THEN (IF deco = "classmethod" THEN "cls" ELSE "self") ELSE "a" \o ToString(i) \o ": int"
            ret == IF name = "__init__" /\ inclass /\ deco = "" THEN "None" ELSE "int"
        IN "def " \o name \o "(" \o params \o ") -> " \o ret \o ":"
 BodyLine(p, i, name, deco) ==
@@ -69,6 +71,7 @@ Cases == {[p |-> p, inner |-> inner, outer |-> outer, deco |-> deco] :
             p \in {q \in Paths : q[Len(q)] = "F"}, inner \in InnerNames, outer \in OuterNames, deco \in Decos}
 \* spelling variants that change nothing are dropped: a decorator only exists on a def directly in a class; `outer` only when the def above is a def
 Relevant(c) == /\ (c.deco = "" \/ (Len(c.p) > 1 /\ c.p[Len(c.p) - 1] = "C"))
+               /\ ~(c.deco = "staticmethod" /\ c.inner = "__init__")      \* a static __init__ means nothing in particular
                /\ (c.outer = "m" \/ (Len(c.p) > 1 /\ c.p[Len(c.p) - 1] = "F"))
 Expect(c) == [i \in DOMAIN c.p |-> [line |-> LineOf(c.p, i, c.deco), name |-> NameAt(c.p, i, c.inner, c.outer),
                                      kind |-> KindOf(c.p, i, NameAt(c.p, i, c.inner, c.outer), DecoAt(c.p, i, c.deco))]]
